@@ -865,6 +865,15 @@ def c11_gen(ctx, intensive=False):
                     toks = ['V:0:1:0:0:41', 'Q', 'H:0:%d:2:%d:4242' % (bit, seq), 'Q', 'V:0:1:1:0:43', 'Q']
                     plan = [('V', 1, 0, '41'), ('Q',), ('G', ['header-bit(%d)' % bit]), ('Q',), ('V', 1, 0, '43'), ('Q',)]
                     cases.append((cid, '%s L %d %d 1 %s' % (cid, method, un, ' '.join(toks)), dict(method=method, unordered=un, nconn=1, plan=plan, relaxed=1)))
+    # a record cut short by a connection drop (the header promises a whole frame, the body ends early, then EOF): under
+    # the plain method the fragment would pass for a frame - nothing of it may reach a stream
+    for method in (0, 1, 3):
+        for un in (0, 1):
+            for keep in (22, 30, 45, 61):
+                cid = 'lp%d' % n; n += 1
+                toks = ['V:0:1:0:0:41', 'Q', 'P:1:%d:9:0:%s' % (keep, '5a' * 40), 'Q']
+                plan = [('V', 1, 0, '41'), ('Q',), ('G', ['record-cut-by-drop(%d)' % keep]), ('Q',)]
+                cases.append((cid, '%s L %d %d 2 %s' % (cid, method, un, ' '.join(toks)), dict(method=method, unordered=un, nconn=2, plan=plan, relaxed=2)))
     return cases
 
 
@@ -949,6 +958,15 @@ def c11_loop(ctx, verdict, intensive=False):
                     for k in st[1]:
                         kk = re.sub(r'\(.*', '', k) + '/m%d' % meta['method']
                         kinds[kk] = kinds.get(kk, 0) + 1
+            if meta['relaxed'] == 2:
+                # the dropped connection takes the session down (that is C12's business); the fragment must not have
+                # become a stream or data
+                listed = [x.split('=')[0] for x in got[-1].split(':', 4)[-1].split(',')] if got else []
+                bad = io.startswith('PANIC') or len(got) != 2 or not got[0].endswith('1=41.') or any(x not in ('1', '') for x in listed)
+                if bad:
+                    msg = 'the receive path panicked: ' + io[:200] if io.startswith('PANIC') else 'a record cut short by a connection drop was handed to the session as a frame (a stream appeared that no whole frame ever named): ' + io[:200]
+                    fails.append((len(line), cid, line, meta, io, msg, got, c11_expected(meta)))
+                continue
             f = got[-1].split(':') if got else []
             s1 = [x for x in (f[4].split(',') if len(f) > 4 else []) if x.startswith('1=')]
             ok = (not io.startswith('PANIC')) and len(got) == 3 and f[1] == '0' and got[0].endswith('1=41.') and s1 and s1[0] in ('1=43.',)
